@@ -127,6 +127,8 @@ type c06SynCase struct {
 	Pos int      `json:"pos"`
 	Dir string   `json:"dir"`
 	Txt []string `json:"text,omitempty"`
+	// Tour: history pass (c06SynTour)
+	Tour bool `json:"tour,omitempty"`
 }
 
 func c06SynRun(c c06SynCase) (*eng.Fail, bool) {
@@ -159,6 +161,69 @@ func c06SynRun(c c06SynCase) (*eng.Fail, bool) {
 	if merr != nil {
 		return &eng.Fail{Sig: fmt.Sprintf("independent synthetic pair not swappable (%s)", c.Dir),
 			What: fmt.Sprintf("%q and %q are independent, yet Move(%d,%d) is refused: %v", a.Name, b.Name, from, to, merr), Case: c}, true
+	}
+	return nil, true
+}
+
+// c06SynTour: the property after a history. On ONE code model of the synthetic sequence every
+// move (i,j), i != j, is attempted in a fixed order (some are refused, some reorder the block);
+// after each attempt every adjacent pair that satisfies the antecedent must swap forth and back.
+func c06SynTour(c c06SynCase) (*eng.Fail, bool) {
+	al := synAlphabet()
+	var pins []parser.Instruction
+	addr := uint64(0x1000)
+	byAddr := map[model.Addr]int{}
+	for _, k := range c.Seq {
+		byAddr[model.Addr(addr)] = k
+		pins = append(pins, parser.Instruction{Type: al[k].Typ, Addr: model.Addr(addr), Bytes: make([]byte, []int{4, 2, 6}[k%3]), Effects: al[k].Effs, Details: synDetails{al[k].Name}})
+		addr += uint64([]int{4, 2, 6}[k%3])
+		c.Txt = append(c.Txt, al[k].Name)
+	}
+	code, err := deps.NewCode(0x1000, pins)
+	if err != nil || code.Len() != 1 {
+		return nil, false
+	}
+	blk := code.Index(0)
+	n := blk.Num()
+	swapAll := func(after string) *eng.Fail {
+		for k := 0; k+1 < n; k++ {
+			ins := blk.Instructions()
+			a, b := al[byAddr[ins[k].OrigAddr()]], al[byAddr[ins[k+1].OrigAddr()]]
+			if !independent(factsOfEffects(a.Effs, a.Typ), factsOfEffects(b.Effs, b.Typ)) {
+				continue
+			}
+			for _, mv := range [][2]int{{k, k + 1}, {k + 1, k}} {
+				var merr error
+				p, stack := eng.Catch(func() { merr = blk.Move(mv[0], mv[1]) })
+				if p != nil {
+					return &eng.Fail{Sig: "Move panic " + eng.PanicSite(stack), What: fmt.Sprintf("Move(%d,%d) %s panics: %v", mv[0], mv[1], after, p), Case: c}
+				}
+				if merr != nil {
+					return &eng.Fail{Sig: "independent synthetic pair not swappable (after a history)",
+						What: fmt.Sprintf("%s: %q and %q at positions %d,%d are independent, yet Move(%d,%d) is refused: %v", after, a.Name, b.Name, k, k+1, mv[0], mv[1], merr), Case: c}
+				}
+			}
+		}
+		return nil
+	}
+	hist := "initially"
+	if f := swapAll(hist); f != nil {
+		return f, true
+	}
+	for i := 0; i < n; i++ {
+		for j := 0; j < n; j++ {
+			if i == j {
+				continue
+			}
+			var merr error
+			if p, stack := eng.Catch(func() { merr = blk.Move(i, j) }); p != nil {
+				return &eng.Fail{Sig: "Move panic " + eng.PanicSite(stack), What: fmt.Sprintf("Move(%d,%d) after %s panics: %v", i, j, hist, p), Case: c}, true
+			}
+			hist += fmt.Sprintf("; Move(%d,%d) %v", i, j, map[bool]string{true: "accepted", false: "refused"}[merr == nil])
+			if f := swapAll("after " + hist); f != nil {
+				return f, true
+			}
+		}
 	}
 	return nil, true
 }
@@ -255,7 +320,7 @@ func c06Alphabet() []uint32 {
 
 func init() {
 	checks["C06"] = eng.Check{
-		Rule:        "every ordered pair over a 40-word alphabet covering every instruction class (ALU reg/imm, lui/auipc, W-ops, loads, stores, AMOs, LR/SC, fence, fence.i, ecall, ebreak, CSR, pseudo-jumps, real jumps, x0 destinations) placed adjacent with prefix in {none, nop, a writer of x1} and suffix in {none, nop nop, terminating jump + pad}; plus every adjacent pair of the C05 block space; plus every ordered pair over 21 SYNTHETIC instructions with effect shapes the RISC-V front end never produces (two stores into one / two memory spaces, two register writes, loads from two spaces, load+store of one space, effect-free typed instructions, registers named like memory spaces and memory spaces named like registers) in 4 contexts. An independent walker over the front end's lifted effects decides the property's literal antecedent (no shared register incl. ip, no shared memory space with a writer, neither syscall/CPU-state, no memory-ordering instruction paired with an access or another ordering instruction, later one not the terminating jump); then Move(i,i+1) and Move(i+1,i), each on a fresh real code, must be accepted. Non-trivial = pair satisfying the antecedent.",
+		Rule:        "every ordered pair over a 40-word alphabet covering every instruction class (ALU reg/imm, lui/auipc, W-ops, loads, stores, AMOs, LR/SC, fence, fence.i, ecall, ebreak, CSR, pseudo-jumps, real jumps, x0 destinations) placed adjacent with prefix in {none, nop, a writer of x1} and suffix in {none, nop nop, terminating jump + pad}; plus every adjacent pair of the C05 block space; plus every ordered pair over 21 SYNTHETIC instructions with effect shapes the RISC-V front end never produces (two stores into one / two memory spaces, two register writes, loads from two spaces, load+store of one space, effect-free typed instructions, registers named like memory spaces and memory spaces named like registers) in 4 contexts. An independent walker over the front end's lifted effects decides the property's literal antecedent (no shared register incl. ip, no shared memory space with a writer, neither syscall/CPU-state, no memory-ordering instruction paired with an access or another ordering instruction, later one not the terminating jump); then Move(i,i+1) and Move(i+1,i), each on a fresh real code, must be accepted. History pass: on ONE code model of every synthetic sequence of 3 instructions (quick: a third) every move (i,j) is attempted in a fixed order, and after each attempt (accepted or refused) every adjacent pair satisfying the antecedent must swap forth and back. Non-trivial = pair satisfying the antecedent.",
 		Assumptions: []string{"instruction facts are recomputed from riscv.Parse effects, not read from deps"},
 		Run: func(r *eng.Run) {
 			alpha := c06Alphabet()
@@ -322,11 +387,33 @@ func init() {
 					}
 				}
 			})
+			// the same after a history of accepted and refused moves on one long-lived code model:
+			// every synthetic sequence of 3 instructions (quick: a third of them)
+			r.Par(na*na, func(ij int) {
+				for k := 0; k < na; k++ {
+					if r.Quick() && (ij+k)%3 != 0 {
+						continue
+					}
+					f, in := c06SynTour(c06SynCase{Seq: []int{ij / na, ij % na, k}, Tour: true})
+					r.Eval(1)
+					if in {
+						r.Nontrivial(1)
+					}
+					if f != nil {
+						r.Report(f)
+						r.Outcome(f.Sig)
+					}
+				}
+			})
 			r.Sample(c06Case{Words: []uint32{prog.Add(4, 5, 6), prog.Ld(18, 19, 0)}, Pos: 0, Dir: "fwd"})
 		},
 		Replay: func(r *eng.Run, raw json.RawMessage) *eng.Fail {
 			var sc c06SynCase
 			if err := json.Unmarshal(raw, &sc); err == nil && len(sc.Seq) > 0 {
+				if sc.Tour {
+					f, _ := c06SynTour(sc)
+					return f
+				}
 				f, _ := c06SynRun(sc)
 				return f
 			}
